@@ -400,7 +400,9 @@ impl<P: Property> Adapter<P> {
 }
 
 fn write_replay<I: Serialize>(prop: &str, input: &I, failure: &Failure) -> PathBuf {
-    let dir = Path::new(VERIF_ROOT).join("replays").join(prop);
+    // VERIF_VIOL_DIR / VERIF_EVIDENCE_DIR redirect what a run WRITES (used when the harness is pointed at a scratch
+    // copy of the repository); known findings and pinned replays are always read from /verif
+    let dir = std::env::var("VERIF_VIOL_DIR").map(PathBuf::from).unwrap_or_else(|_| Path::new(VERIF_ROOT).join("replays")).join(prop);
     let _ = std::fs::create_dir_all(&dir);
     let body = json!({
         "property": prop,
@@ -767,7 +769,7 @@ impl<P: Property> DynProp for Adapter<P> {
             "violations": violations.len(),
         });
         if !opts.no_evidence {
-            let dir = Path::new(VERIF_ROOT).join("evidence");
+            let dir = std::env::var("VERIF_EVIDENCE_DIR").map(PathBuf::from).unwrap_or_else(|_| Path::new(VERIF_ROOT).join("evidence"));
             let _ = std::fs::create_dir_all(&dir);
             let path = dir.join(format!("{id}.json"));
             std::fs::write(&path, serde_json::to_string_pretty(&evidence).unwrap()).unwrap();
